@@ -51,24 +51,27 @@ RECURSIVE ClsFrom(_, _)
 ClsFrom(ps, i) == IF i > Len(ps) THEN <<>> ELSE ClassOf(ps[i]) \o ClsFrom(ps, i + 1)
 Cls(ps) == ClsFrom(ps, 1)
 
-\* physical line number of every source byte: a line feed belongs to the line it terminates.
 \* READING: lines are the PHYSICAL lines of the source (every LF counts, also one inside a comment
-\* or a statement); a comment spanning two lines is "a comment" on both.  This is the reading under
-\* which `x {# a<LF>b #} <LF>y` -> `x y` (the second line holds only the end of a comment and
-\* spaces) is a documented removal.
-RECURSIVE LinesFrom(_, _, _)
-LinesFrom(src, i, ln) == IF i > Len(src) THEN <<>>
-                         ELSE <<ln>> \o LinesFrom(src, i + 1, IF src[i] = NLc THEN ln + 1 ELSE ln)
-LineNos(src) == LinesFrom(src, 1, 1)
-
-\* the content-free lines: at least (part of) one statement/comment, no value-producing show,
-\* and every byte of literal text or raw content on it is white space
-CutLines(src, cls, ln) ==
-  {l \in {ln[k] : k \in DOMAIN ln} :
-      /\ \E k \in DOMAIN src : ln[k] = l /\ cls[k] = cS
-      /\ \A k \in DOMAIN src : ln[k] = l =>
-            /\ cls[k] # cH
-            /\ (cls[k] \in {cT, cR} => src[k] \in WS)}
+\* or a statement; a line feed belongs to the line it terminates); a comment spanning two lines is
+\* "a comment" on both.  This is the reading under which `x {# a<LF>b #} <LF>y` -> `x y` (the second
+\* line holds only the end of a comment and spaces) is a documented removal.
+\*
+\* MayIdx: the source indices of the text / raw-content bytes lying on a CONTENT-FREE line: a line with
+\* at least (part of) one statement/comment, no value-producing show, and whose every byte of literal
+\* text or raw content is white space.  One pass; start = first index of the current line,
+\* hasS = statement/comment syntax seen on it, bad = show syntax or non-space text seen on it.
+TextIn(cls, a, b) == {j \in a..b : cls[j] \in {cT, cR}}
+RECURSIVE MayScan(_, _, _, _, _, _, _)
+MayScan(src, cls, k, start, hasS, bad, acc) ==
+  IF k > Len(src) THEN (IF hasS /\ ~bad THEN acc \cup TextIn(cls, start, Len(src)) ELSE acc)
+  ELSE LET c == cls[k]
+           hasS2 == hasS \/ c = cS
+           bad2 == bad \/ c = cH \/ (c \in {cT, cR} /\ src[k] \notin WS)
+       IN IF src[k] = NLc
+          THEN LET acc2 == IF hasS2 /\ ~bad2 THEN acc \cup TextIn(cls, start, k) ELSE acc
+               IN MayScan(src, cls, k + 1, k + 1, FALSE, FALSE, acc2)
+          ELSE MayScan(src, cls, k + 1, start, hasS2, bad2, acc)
+MayIdx(src, cls) == MayScan(src, cls, 1, 1, FALSE, FALSE, {})
 
 (* The envelope is a sequence of <<byte, flag>>: flag 0 = MUST appear, 1 = MAY be missing.
      must-keep   every text / raw-content byte outside the content-free lines, every show value
@@ -79,15 +82,12 @@ EnvFrom(ps, i, off, src, cls, mayIdx) ==   \* off = number of source bytes befor
   IF i > Len(ps) THEN <<>>
   ELSE LET p == ps[i]
            own == IF p.k \in {"show", "render"} THEN [x \in 1..Len(p.v) |-> <<p.v[x], 0>>]
-                  ELSE LET idx == SelectSeq([x \in 1..Len(p.s) |-> off + x], LAMBDA k : cls[k] \in {cT, cR})
-                       IN [x \in 1..Len(idx) |-> <<src[idx[x]], IF idx[x] \in mayIdx THEN 1 ELSE 0>>]
+                  ELSE IF p.k = "text" THEN [x \in 1..Len(p.s) |-> <<p.s[x], IF (off + x) \in mayIdx THEN 1 ELSE 0>>]
+                  ELSE IF p.k = "raw" THEN [x \in 1..Len(p.v) |-> <<p.v[x], IF (off + p.w + x) \in mayIdx THEN 1 ELSE 0>>]
+                  ELSE <<>>
        IN own \o EnvFrom(ps, i + 1, off + Len(p.s), src, cls, mayIdx)
-
-\* mayIdx: the source indices whose byte may be missing
-MayIdx(src, cls, ln) == LET cl == CutLines(src, cls, ln) IN
-                        {k \in DOMAIN src : cls[k] \in {cT, cR} /\ ln[k] \in cl}
-Envelope(ps) == LET src == Src(ps) cls == Cls(ps) ln == LineNos(src)
-                IN EnvFrom(ps, 1, 0, src, cls, MayIdx(src, cls, ln))
+EnvWith(ps, src, cls, may) == EnvFrom(ps, 1, 0, src, cls, may)
+Envelope(ps) == LET src == Src(ps) cls == Cls(ps) may == MayIdx(src, cls) IN EnvWith(ps, src, cls, may)
 
 \* membership: out is obtained from the envelope by deleting some MAY bytes and nothing else.
 \* R = set of positions j such that out[1..j-1] can be produced by env[1..i-1]   (polynomial DP)
@@ -96,9 +96,10 @@ Reach(env, out, i, R) ==
   IF i > Len(env) \/ R = {} THEN R
   ELSE LET e == env[i]
            adv == {j + 1 : j \in {x \in R : x <= Len(out) /\ out[x] = e[1]}}
-       IN Reach(env, out, i + 1, IF e[2] = 1 THEN adv \cup R ELSE adv)
+           R2 == IF e[2] = 1 THEN adv \cup R ELSE adv
+       IN Reach(env, out, i + 1, R2)
 Member(env, out) == (Len(out) + 1) \in Reach(env, out, 1, {1})
-InEnvelope(ps, out) == Member(Envelope(ps), out)
+InEnvelope(ps, out) == LET env == Envelope(ps) IN Member(env, out)
 
 (* ---- which (pieces, format) the reference has an opinion about; anything else is ref_undefined ---- *)
 Kinds == {"text", "show", "render", "stmt", "comment", "raw", "shebang"}
@@ -124,25 +125,27 @@ WellFormedPieces(ps) ==
 \* a constant string is shown as itself only where the format has no quoting of its own
 PlainFmts == {"txt", "html", "md"}
 ShowOk(ps, fmt) == \A i \in DOMAIN ps : (ps[i].k = "show" /\ \E x \in DOMAIN ps[i].v : ~IsDigit(ps[i].v[x])) => fmt \in PlainFmts
-StructDefined(ps) == WellFormedPieces(ps) /\ Balanced(ps) /\ NoAccidentalSyntax(Src(ps), Cls(ps))
+StructDefined(ps) == WellFormedPieces(ps) /\ Balanced(ps) /\ LET src == Src(ps) cls == Cls(ps) IN NoAccidentalSyntax(src, cls)
 Defined(ps, fmt) == StructDefined(ps) /\ ShowOk(ps, fmt)
 
 (* root-cause signature of a record outside the envelope (computed from reference quantities only) *)
-LastLineLeading(src, cls, ln) ==   \* text bytes of the last physical line that precede its first non-text byte
-  LET last == IF Len(src) = 0 THEN 0 ELSE ln[Len(src)]
-      onl == {k \in DOMAIN src : ln[k] = last}
-      firstSyn == IF \E k \in onl : cls[k] \notin {cT, cR} THEN CHOOSE k \in onl : cls[k] \notin {cT, cR} /\ \A j \in onl : j < k => cls[j] \in {cT, cR}
-                  ELSE Len(src) + 1
-  IN {k \in onl : k < firstSyn /\ src[k] \in WS}
-AllWsIdx(src, cls) == {k \in DOMAIN src : cls[k] \in {cT, cR} /\ src[k] \in WS}
-EnvWith(ps, extraMay) == LET src == Src(ps) cls == Cls(ps) ln == LineNos(src)
-                         IN EnvFrom(ps, 1, 0, src, cls, MayIdx(src, cls, ln) \cup extraMay)
+RECURSIVE LastLineStart(_, _)
+LastLineStart(src, k) == IF k <= 1 THEN 1 ELSE IF src[k - 1] = NLc THEN k ELSE LastLineStart(src, k - 1)
+RECURSIVE LeadingText(_, _, _)
+LeadingText(src, cls, k) == IF k > Len(src) \/ cls[k] \notin {cT, cR} THEN {} ELSE {k} \cup LeadingText(src, cls, k + 1)
+\* white-space text bytes of the last physical line that precede its first non-text byte
+LastLineLeading(src, cls) == IF Len(src) = 0 THEN {}
+                             ELSE {k \in LeadingText(src, cls, LastLineStart(src, Len(src))) : src[k] \in WS}
 Cause(ps, out) ==
-  LET src == Src(ps) cls == Cls(ps) ln == LineNos(src) IN
-  IF Member(EnvWith(ps, LastLineLeading(src, cls, ln)), out) THEN "leading-space-of-last-line-with-content-removed"
-  ELSE IF Member(EnvWith(ps, AllWsIdx(src, cls)), out) THEN "space-of-line-with-content-removed"
-  ELSE IF Member(EnvWith(ps, {k \in DOMAIN src : cls[k] \in {cT, cR}}), out) THEN "text-removed"
-  ELSE "text-changed-or-added"
+  LET src == Src(ps) cls == Cls(ps) may == MayIdx(src, cls)
+      text == {k \in DOMAIN src : cls[k] \in {cT, cR}}
+      e1 == EnvWith(ps, src, cls, may \cup LastLineLeading(src, cls))
+      e2 == EnvWith(ps, src, cls, may \cup {k \in text : src[k] \in WS})
+      e3 == EnvWith(ps, src, cls, text)
+  IN IF Member(e1, out) THEN "leading-space-of-last-line-with-content-removed"
+     ELSE IF Member(e2, out) THEN "space-of-line-with-content-removed"
+     ELSE IF Member(e3, out) THEN "text-removed"
+     ELSE "text-changed-or-added"
 LastKind(ps) == IF Len(ps) = 0 THEN "none" ELSE ps[Len(ps)].k
 
 (* =====================================================================================
@@ -225,9 +228,9 @@ LineBlock(st, toks, i, cut) ==
 Count(st, tok) == IF tok.t = "text" THEN st
                   ELSE [st EXCEPT !.num = @ + 1, !.ctok = @ \/ tok.ct]
 PStep(st, toks, i, eofAny) ==
-  Count(IF NewLine(st, toks, i, eofAny) THEN LineBlock(st, toks, i, WillCut(st)) ELSE st, toks[i])
+  LET s1 == IF NewLine(st, toks, i, eofAny) THEN LineBlock(st, toks, i, WillCut(st)) ELSE st IN Count(s1, toks[i])
 RECURSIVE PRun(_, _, _, _)
-PRun(st, toks, i, eofAny) == IF i > Len(toks) THEN st ELSE PRun(PStep(st, toks, i, eofAny), toks, i + 1, eofAny)
+PRun(st, toks, i, eofAny) == IF i > Len(toks) THEN st ELSE LET s2 == PStep(st, toks, i, eofAny) IN PRun(s2, toks, i + 1, eofAny)
 
 (* ---- emitter: Text[Cut.Left : len-Cut.Right], shows write their value ---- *)
 CutsInRange(toks, cuts) == \A i \in DOMAIN toks : cuts[i][1] + cuts[i][2] <= Len(toks[i].txt) \/ toks[i].t # "text"
@@ -237,7 +240,8 @@ EmitFrom(toks, cuts, i) ==
   ELSE (CASE toks[i].t = "text" -> Sub(toks[i].txt, cuts[i][1] + 1, Len(toks[i].txt) - cuts[i][2])
           [] toks[i].t = "show" -> toks[i].val
           [] OTHER -> <<>>) \o EmitFrom(toks, cuts, i + 1)
-ModelOut(ps, eofAny) == LET toks == Lex(ps) IN EmitFrom(toks, PRun(PS0(Len(toks)), toks, 1, eofAny).cuts, 1)
+ModelOutT(toks, eofAny) == LET fin == PRun(PS0(Len(toks)), toks, 1, eofAny) IN EmitFrom(toks, fin.cuts, 1)
+ModelOut(ps, eofAny) == LET toks == Lex(ps) IN ModelOutT(toks, eofAny)
 
 (* =====================================================================================
    Piece catalogue (used by MC_Cut to generate; Trace_Cut never looks a piece up)
